@@ -281,6 +281,13 @@ def bounded_native(ck):
             cfg.detector.optical.telescope_effective_area = 2.123456789012345
             cfg.detector.sun_moon.moon_min_phase_angle_cut = 2.6179938779914944
             vs.append((name + ",long-values", cfg))
+        for name, cfg in list(variants())[:1]:
+            # values whose text form uses exponent notation; a text with a significant leading blank
+            cfg.detector.name = " POEMMA"
+            cfg.simulation.angle_from_limb = 1.0e-6
+            cfg.detector.optical.telescope_effective_area = 5.0e-5
+            cfg.detector.sun_moon.moon_min_phase_angle_cut = 3.0e-7
+            vs.append((name + ",exponent-values", cfg))
         # a Target-mode configuration with negative / more-than-a-turn angles: the header must denote the values the run used
         from nuspacesim.config import NssConfig as _NC
 
@@ -340,12 +347,12 @@ def bounded_native(ck):
                 pairs = [("latitude", r.detector.initial_position.latitude, cfg.detector.initial_position.latitude), ("longitude", r.detector.initial_position.longitude, cfg.detector.initial_position.longitude), ("altitude", r.detector.initial_position.altitude, 525.0),
                          ("snr_threshold", r.detector.radio.snr_threshold, 7.5), ("spectrum id", r.simulation.spectrum.id, cfg.simulation.spectrum.id), ("cloud id", r.simulation.cloud_model.id, cfg.simulation.cloud_model.id),
                          ("thrown_events", r.simulation.thrown_events, cfg.simulation.thrown_events), ("etau_frac", r.simulation.tau_shower.etau_frac, cfg.simulation.tau_shower.etau_frac)]
-                pairs += [("title", r.title, cfg.title), ("detector name", r.detector.name, cfg.detector.name), ("effective area", r.detector.optical.telescope_effective_area, cfg.detector.optical.telescope_effective_area),
-                          ("moon phase cut", r.detector.sun_moon.moon_min_phase_angle_cut, cfg.detector.sun_moon.moon_min_phase_angle_cut)]
+                pairs += [("angle_from_limb", r.simulation.angle_from_limb, cfg.simulation.angle_from_limb)]
+                pairs += [("title", r.title, cfg.title), ("detector name", r.detector.name, cfg.detector.name), ("effective area", r.detector.optical.telescope_effective_area, cfg.detector.optical.telescope_effective_area)]  # (detector.sun_moon is not among the fields config_from_fits reconstructs: it is checked in the header only)
                 if "power" in name:
                     pairs += [("index", r.simulation.spectrum.index, 2.2), ("lower_bound", r.simulation.spectrum.lower_bound, 7.0), ("upper_bound", r.simulation.spectrum.upper_bound, 11.0)]
                 # an angle goes through text in degrees and back: a few ulp (8 allowed); everything else 1 ulp-scale as before
-                badp = [(k, a, b) for k, a, b in pairs if not (a == b or (isinstance(b, float) and abs(a - b) <= (2e-15 if k == "moon phase cut" else 4e-16) * max(1.0, abs(b))))]
+                badp = [(k, a, b) for k, a, b in pairs if not (a == b or (isinstance(b, float) and abs(a - b) <= (2e-15 if k in ("moon phase cut", "angle_from_limb") else 4e-16) * max(abs(b), 1.0 if abs(b) > 1e-3 else abs(b))))]
                 if badp:
                     fails.append({"obligation": "bounded.reader", "clause": "the configuration reconstructed from a results file agrees with the original on every field it reconstructs", "input": {"variant": name},
                                   "observed": {"field": badp[0][0], "reconstructed": badp[0][1], "original": badp[0][2]}})
